@@ -228,6 +228,42 @@ fn run(ctx: &mut Ctx, rep: &mut Report) {
             record(ctx, rep, &Case::Text(t, "reject"), r, &recs);
         }
     }
+    // 2b. texts that pass the grammar but must fail when the record is built (owner or target name too
+    //     long once encoded, text too long), each followed on the same thread by valid texts of every type:
+    //     a failed synthesis must not influence the next one
+    {
+        let long = format!("{}.toolong", name_with_wire_len(253));
+        let fails: Vec<String> = vec![
+            format!("{} 1 IN A 1.2.3.4", long),
+            format!("{} 1 IN TXT \"stale-data\"", long),
+            format!("x 1 IN MX 5 {}", long),
+            format!("x 1 IN SOA {} a ( 1 2 3 4 5 )", long),
+            format!("x 1 IN NS {}", long),
+            format!("x 1 IN TXT \"{}\"", label_of(3826, 'z')),
+            format!("{} 1 IN DS 1 2 3 abcd", long),
+        ];
+        let firsts: Vec<usize> = {
+            let mut seen = std::collections::BTreeSet::new();
+            recs.iter().enumerate().filter(|(_, r)| seen.insert(r.type_name())).map(|(i, _)| i).collect()
+        };
+        for (k, ft) in fails.iter().enumerate() {
+            gi += 1;
+            if !ctx.mine(gi) {
+                continue;
+            }
+            for &i in &firsts {
+                let r = check_reject(ft, "name or text too long for a record");
+                record(ctx, rep, &Case::Text(ft.clone(), "reject"), r, &recs);
+                let r = check_valid(&recs[i], 0, 0, false).map(|c| format!("{}after_failed_build", c)).map_err(|(sg, w)| (format!("after_failed_build:{}", sg), format!("after the rejected text #{}: {}", k, w)));
+                if let Err((sg, w)) = r {
+                    rep.transitions += 1;
+                    rep.violation(&sg, w, json!({"kind": "after_fail", "fail_text": ft, "level": ctx.tier.pick(0, 1), "index": i}));
+                } else {
+                    record(ctx, rep, &Case::Valid(i, 0, 0), r, &recs);
+                }
+            }
+        }
+    }
     // 3. single-character damage of short valid texts
     for (i, tr) in recs.iter().enumerate() {
         let text = render(&tr.tokens(0), 0);
@@ -314,6 +350,15 @@ fn replay(case: &Value) -> Result<String, String> {
             let (kw, ws) = (case["kw"].as_u64().unwrap_or(0) as usize, case["ws"].as_u64().unwrap_or(0) as usize);
             println!("text: {:?}", short(&render(&recs[i].tokens(kw), ws)));
             check_valid(&recs[i], kw, ws, true).map_err(|(s, w)| format!("[{}] {}", s, w))
+        }
+        Some("after_fail") => {
+            let recs = valid_records(case["level"].as_u64().unwrap_or(0) as usize);
+            let i = case["index"].as_u64().unwrap_or(0) as usize;
+            let ft = case["fail_text"].as_str().unwrap_or("");
+            println!("first (must be rejected): {:?}", short(ft));
+            println!("then: {:?}", short(&render(&recs[i].tokens(0), 0)));
+            let _ = check_reject(ft, "too long");
+            check_valid(&recs[i], 0, 0, false).map_err(|(s, w)| format!("[after_failed_build:{}] {}", s, w))
         }
         _ => {
             let t = unhex(case["text_hex"].as_str().unwrap_or(""));
